@@ -8,6 +8,14 @@ arrangement.  What cannot be modelled (allocator, ASLR) is explored: programs ar
 fresh processes with address-space randomisation on, and inside one worker thread after
 random evaluation histories and with random pre-interned string pools; outputs and error
 texts must be byte-identical.
+
+Second half (coq/theories/C16/*Tls.v): thread-local interpreter state (stack depth counter and limit,
+RUNNING_ASSERTIONS, the STATE slot, FileData.evaluating) is bracketed.  translator/gens/tlstate.py reads the
+protocols statement by statement from obj/mod.rs and lib.rs into Gen/GenTls.v (stack.rs: Gen/GenStack.v is
+reused); C16_source_protocols_are_brackets proves every exit undoes its entry on the success AND the error
+path, C16_tls_restored / C16_history_independent follow for ALL history trees.  A translate error or a failed
+obligation there is a C16 obligation; the history families below (failing assertions, stack-limit hits, failing
+imports, each followed by probes on the same thread) are then run densely as the targeted search.
 """
 import json
 import os
@@ -18,6 +26,8 @@ from vlib import progen as g
 
 C16_IMPORTS = "From Coq Require Import List NArith.\nFrom JrV Require Import C16.Model.\nImport ListNotations.\n"
 NPROC_RUNS = 6
+TLS_IMPORTS = ("From Coq Require Import List Arith Bool.\nFrom JrV Require Import Gen.GenStack Gen.GenTls C16.ModelTls "
+               "C16.PropertiesTls.\nImport ListNotations.\n")
 
 
 def family(run):
@@ -97,6 +107,71 @@ def run_cli(exe, code, extra):
                        cwd=core.CACHE)
     return (p.returncode, p.stdout.decode("utf-8", "replace"), p.stderr.decode("utf-8", "replace"))
 
+TLS_GENS = ("GenTls", "GenStack")
+TLS_FILES = {"ok.jsonnet": "{a: 1, assert self.a == 1}", "bad_assert.jsonnet": "{a: 1, assert self.a == 2 : 'nope'}",
+             "boom.jsonnet": "error 'boom'", "syntax.jsonnet": "{a: ", "cyc1.jsonnet": "import 'cyc2.jsonnet'",
+             "cyc2.jsonnet": "import 'cyc1.jsonnet'", "self.jsonnet": "(import 'self.jsonnet') + 1",
+             "deep.jsonnet": "local f(n) = 1 + f(n + 1); f(0)",
+             "mix.jsonnet": "local o = {x: (import 'bad_assert.jsonnet').a, assert std.length(self.x) > 0}; o.x"}
+
+
+def tls_history_family(run, dense):
+    """(prefixes, probes): programs that END inside a bracket protocol with an error (so that a restore missing on
+    the error path leaks), and probes whose outcome depends on the thread-local state they start from"""
+    deep = "local f(n) = 1 + f(n + 1); f(0)"
+    prefixes = [
+        # failing assertions: directly, nested in frames, in a super chain, inside an import, re-entrant
+        "{assert false : 'a1', x: 1}.x", "local o = {assert self.y > 1, y: 1}; o.y",
+        "local f(n) = if n == 0 then {assert false, v: 1}.v else f(n - 1); f(40)",
+        "({assert true, a: 1} + {assert self.a == 2, b: 2}).b", "local o = {assert o.x == 1, x: 2}; o.x",
+        "std.manifestJson({a: {assert false : 'inner'}})", "(import 'bad_assert.jsonnet').a", "import 'mix.jsonnet'",
+        "local o = {assert (import 'boom.jsonnet'), z: 1}; o.z",
+        # stack-limit hits: plain, through object methods, inside an assertion, inside an import
+        deep, "local o = {f(n): 1 + self.f(n + 1)}; o.f(0)", "local o = {assert (" + deep + ") > 0, q: 1}; o.q",
+        "import 'deep.jsonnet'", "local a = std.makeArray(3, function(i) " + deep + "); a[1]",
+        # failing imports: runtime error, syntax error, missing, cycles, self-import
+        "import 'boom.jsonnet'", "import 'syntax.jsonnet'", "import 'missing.jsonnet'", "import 'cyc1.jsonnet'",
+        "import 'self.jsonnet'", "[import 'ok.jsonnet', import 'boom.jsonnet']", "importstr 'missing.txt'",
+        "local f(n) = if n == 0 then import 'boom.jsonnet' else f(n - 1); f(60)",
+    ]
+    probes = [f"local f(n) = if n == 0 then 0 else 1 + f(n - 1); f({d})" for d in
+              (range(180, 204) if dense else (150, 190, 196, 197, 198, 199, 200, 201))]
+    probes += ["(import 'ok.jsonnet').a", "import 'cyc1.jsonnet'", "import 'self.jsonnet'", "(import 'bad_assert.jsonnet').a",
+               "{assert self.x == 1, x: 1}.x", "local o = {assert o.x == 1, x: 1}; o.x", "{assert false : 'a1', x: 1}.x",
+               "local o = {f(n): if n == 0 then 0 else 1 + self.f(n - 1)}; o.f(150)", "import 'mix.jsonnet'",
+               "[import 'ok.jsonnet', (import 'ok.jsonnet') + {a: 2}]"]
+    return prefixes, probes
+
+
+def tls_history_probe(run, binary, dense):
+    """fresh outcome of every probe vs its outcome after 1..4 failing prefix programs on the same thread"""
+    r = run.rng.fork("tlshist-dense" if dense else "tlshist")
+    prefixes, probes = tls_history_family(run, dense)
+    mk = lambda code: {"code": code, "errtext": True, "out": "default", "files": TLS_FILES}
+    fresh = core.run_harness(binary, "eval", [mk(p) for p in probes])
+    seqs, meta = [], []
+    reps = 6 if dense else 2
+    for pi, p in enumerate(probes):
+        for k in range(reps):
+            n = 1 + (pi + k) % 4
+            pre = [r.choice(prefixes) for _ in range(n)]
+            if k == 0:
+                pre = [prefixes[(pi * 3 + j) % len(prefixes)] for j in range(n)]      # every prefix appears
+            seqs.append({"seq": [mk(c) for c in pre] + [mk(p)]})
+            meta.append((pi, n, pre))
+    outs = core.run_harness(binary, "eval", seqs)
+    failures = []
+    for (pi, n, pre), o, sq in zip(meta, outs, seqs):
+        run.note_case("tlshist:" + probes[pi] + "|" + "|".join(pre), True)
+        run.count("tls-history")
+        got = o.get("seq", [None] * (n + 1))[n] if "seq" in o else o
+        if got != fresh[pi]:
+            failures.append({"case": {"request": sq},
+                             "summary": "C16 thread-local state leaked by an earlier failing evaluation changes a later "
+                                        f"result: {probes[pi][:80]} after {' ; '.join(x[:40] for x in pre)[:160]}",
+                             "expected": fresh[pi], "got": got})
+    return failures
+
 
 def check(run, terrs):
     from concurrent.futures import ThreadPoolExecutor
@@ -108,6 +183,25 @@ def check(run, terrs):
         return core.conclude(run, False, err or berr, [], [])
     failures = []
     thorough = run.tier == "thorough"
+    # source tie of the thread-local bracket protocols: translate errors of GenTls / GenStack and failed *Tls
+    # theorems are C16 obligations (registered by ./check and check_property_file); say which, then probe
+    stale = [(n, m) for n, m in terrs if n in TLS_GENS]
+    for n, m in stale:
+        run.log(f"source tie: translator {n} rejected the source (Gen/{n}.v is stale and says nothing about this "
+                f"tree): {m[:300]}")
+    tls_broken = bool(stale) or any((not ok) and ("tls" in n.lower() or "bracket" in n.lower() or "history" in n.lower()
+                                                  or "refuted" in n.lower()) for n, ok, _ in run.obligations)
+    run.coverage["tls_source_tie"] = "broken" if tls_broken else "holds"
+    if tls_broken:
+        run.log("source tie: a thread-local bracket obligation broke: running the history families densely "
+                "(failing assertions / stack-limit hits / failing imports, then probes on the same thread)")
+    failures += tls_history_probe(run, binary, dense=tls_broken or thorough)
+    run.log(f"thread-local history probe done ({len(failures)} failing)")
+    if not stale:
+        m = core.coq_eval(TLS_IMPORTS, ["running (snd (run nv_tree tls0))",
+                                        "running (snd (run_g leaky_assert_protos (Assert 7 (Leaf false)) tls0))",
+                                        "fst (run (Import 3 (Import 3 (Leaf true))) tls0)"])
+        run.obligation("C16.model.tls_run_executes", list(m) == [[], [7], False], repr(m)[:300])
     pg = g.ProgGen(run.rng.fork("progs"), p_err=0.1)
     progs = family(run) + [g.to_js(pg.program()) for _ in range(1500 if thorough else 140)]
     cli = [(p, []) for p in progs] + tla_cases()
@@ -174,7 +268,17 @@ def check(run, terrs):
     run.assumptions = ["determinism of the allocator / ASLR cannot be modelled: the theorem says no observable depends "
                        "on enumeration order (the only route by which addresses can leak); process-level runs search for "
                        "routes the model missed"]
-    return core.conclude(run, proofs_ok, detail, failures, [], level="proof", rule=RULE)
+    run.trusted += ["translator/gens/tlstate.py and stack.py (read the bracket protocols' statements; fail closed on "
+                    "anything else) and the generic interpreter ModelTls.run_g of the translated transformers"]
+    run.assumptions += ["thread-local half: the model's state is exactly the four thread-local / per-State cells named "
+                        "in ModelTls.tls; that evaluate() uses the protocols only in bracketed (well-nested) fashion is "
+                        "Rust's scoping of guards and calls, not proved; value caches are C03's subject"]
+
+    def search():
+        return tls_history_probe(run, binary, dense=True)
+
+    return core.conclude(run, proofs_ok, detail, failures, [], search=search if not thorough else None,
+                         level="proof", rule=RULE)
 
 
 def replay(run, data):
@@ -199,4 +303,7 @@ RULE = ("order-sensitive family (objects with 2..30 keys listed/compared/manifes
         "fields and unknown named parameters with 2..9 equally similar candidates; several possible errors; 2..5 "
         "unknown or failing top-level arguments) + random value/error programs; each run in 6 fresh processes (ASLR on) "
         "and in a worker after a random history with a random pre-interned pool (0..5000 strings); distinct = distinct "
-        "program/configuration; all non-trivial")
+        "program/configuration; all non-trivial; + thread-local history family: ~40 probes (frame "
+        "counts 150..201 around the limit, objects with passing/failing/self-referential assertions, imports incl. cycles) "
+        "each after 1..4 of 22 prefix programs that fail INSIDE a bracket protocol (failing assertions, stack-limit "
+        "hits, failing imports, nested), fresh outcome vs outcome after the history on one thread")
